@@ -143,3 +143,69 @@ def replay_of(r: dict, **extra) -> dict:
     d['spec_protocol_line'] = r.get('line_A', '')[:200000]
     d.update(extra)
     return d
+
+
+KF_CIRC = 'circ-copies-carry-different-variant-sets'
+
+
+def explore_backbone(ctx: common.Ctx, kind: str, n_jobs: int, opts: dict, procs: int = 14):
+    """fusion / circRNA inputs: real FASTA vs the union of the per-transcript sets and the Lean
+    backbone set.  Each completed result gets 'S' and 'real_set' (+ 'S_mixed' for circRNA cases
+    that disagree)."""
+    from . import cv_backbone
+    worker = cv_backbone.fusion_worker if kind == 'fusion' else cv_backbone.circ_worker
+    op = 'cvb' if kind == 'fusion' else 'cvc'
+    jobs = [(ctx.rng(kind + 'job', i).randrange(1 << 30), ctx.tier, opts) for i in range(n_jobs)]
+    with mp.get_context('fork').Pool(min(procs, max(1, n_jobs))) as pool:
+        res = pool.map(worker, jobs)
+    stats: Dict[str, int] = {}
+    for r in res:
+        for k, v in r['stats'].items():
+            stats[k] = stats.get(k, 0) + v
+    ctx.coverage.setdefault('worker_stats_backbone', {})[kind] = stats
+    errs = [r['error'] for r in res if 'error' in r]
+    if errs:
+        ctx.coverage['worker_errors'] = errs[:3]
+    done = [r for r in res if 'lines' in r]
+    # pass 1: per-transcript sets and the donor/host reference peptides
+    lines, idx = [], []
+    for i, r in enumerate(done):
+        for k, ln in r['lines']:
+            lines.append(ln)
+            idx.append((i, k))
+    outs = ctx.lean(lines)
+    if outs is None:
+        ctx.add_broken('correspondence', kind, 'native driver unavailable')
+        return res
+    for r in done:
+        r['S'] = set()
+        r['deny'] = ''
+    for (i, k), o in zip(idx, outs):
+        if k == 'main':
+            done[i]['S'] |= to_set(o)
+        else:
+            done[i]['deny'] = o
+    # pass 2: the backbone
+    lines, idx = [], []
+    for i, r in enumerate(done):
+        if op in r:
+            lines.append('\t'.join(r[op] + [r['deny'], r['canon']]))
+            idx.append(i)
+    outs = ctx.lean(lines) or []
+    for i, o in zip(idx, outs):
+        done[i]['S'] |= to_set(o)
+    for r in done:
+        r['real_set'] = set(r['real'])
+    if kind == 'circ':
+        lines, idx = [], []
+        for i, r in enumerate(done):
+            if r['real_set'] != r['S'] and op in r:
+                a = list(r[op])
+                a[1] = 'cvcm'
+                lines.append('\t'.join(a + [r['deny'], r['canon']]))
+                idx.append(i)
+        outs = ctx.lean(lines) or []
+        for i, o in zip(idx, outs):
+            done[i]['S_mixed'] = to_set(o)
+    shutil.rmtree(gen_ref.WORK, ignore_errors=True)
+    return res
